@@ -207,6 +207,12 @@ C05Env ==
               (nodes[i].gen # "meta" /\ ExpBind(nodes[i]) # <<>>) =>
                  \A j \in 1..Len(Obs.binds) :
                     (Obs.binds[j].p = nodes[i].p /\ Obs.binds[j].attr = "") => BindMatches(Obs.binds[j].attrs, ExpBind(nodes[i])))
+  \* the audit row's parameters become attributes of the bind of meta/audit, next to its type-table bind
+  /\ Check("audit_bind_attributes",
+           SrcBind(<<"meta", "audit">>) # <<>> =>
+              LET S == {j \in 1..Len(Obs.binds) : Obs.binds[j].p = <<"meta", "audit">> /\ Obs.binds[j].attr = ""}
+              IN /\ Cardinality(S) = 1
+                 /\ \A j \in S : BindMatches(Obs.binds[j].attrs, Merge(TypeBind("audit"), SrcBind(<<"meta", "audit">>))))
   /\ Check("bind_only_for_nodes",
            \A j \in 1..Len(Obs.binds) : \E i \in 1..Len(nodes) : nodes[i].p = Obs.binds[j].p)
 
